@@ -403,6 +403,7 @@ def real_clock_run(ctx):
     rows = [r for r in rows if r["op"] != "tick"]
     # finite timeouts against the real clock: outcomes that real time can only confirm (see gen.real_time_script)
     rows += gen.real_time_script(ctx.rng, ctx.q(120, 600), ctx.q(3000, 30000))
+    rows += gen.edge_timeouts(ctx.rng, sleep=True)
     script = ctx.work.fresh("script_real-clock_", "ndjson")
     write_ndjson(script, rows)
     exec_script(script, script + ".trace", config="nohook")
@@ -553,6 +554,7 @@ def far_time_battery(ctx, twins=True):
     """The polling scanner at clock readings where 16/32/64-bit counts of ns / us / ms wrap."""
     run_script(ctx, gen.far_times(ctx.rng, ctx.q(150, 1500)), "far-away-times")
     run_script(ctx, gen.pending_across_wraps(ctx.rng), "pending-across-wraps")
+    run_script(ctx, gen.edge_timeouts(ctx.rng), "timeouts-at-the-edge-of-representability")
     if twins:
         # a script of its own, in pieces: its time steps go to every instance (id -1), and TLC's integers are 32-bit
         for i in range(ctx.q(1, 10)):
